@@ -165,30 +165,7 @@ func c01CaptureFrom(t *testing.T, T, M *c01wire.Key, victimInitiator bool) (*c01
 	}
 	var cpt *c01Capture
 	var err error
-	pan := c01Bubble(t, func() {
-		l := c01wire.NewLink(c01wire.FrameNoise)
-		cfg := c01Cfg{Entry: "T", Expect: "empty"}
-		if victimInitiator {
-			cfg.Expect = "match"
-		}
-		V := &c01Party{name: "victim", key: T, cfg: cfg, initiator: victimInitiator, end: l.End(0)}
-		V.secure = c01Build(t, T, cfg, victimInitiator, M.ID, M.ID)
-		st := c01NewStatic()
-		at := &c01Attacker{initiator: !victimInitiator, static: st,
-			payload: c01Payload(M.PubBytes, c01Sign(M, append([]byte(payloadSigPrefix), st.Public...)), nil)}
-		var wg sync.WaitGroup
-		wg.Add(1)
-		go func() { defer wg.Done(); at.run(l.End(1)) }()
-		c01HandshakePhase([]*c01Party{V})
-		wg.Wait()
-		if !V.completed || !at.finished || V.remotePeer != M.ID {
-			err = fmt.Errorf("capture handshake with the victim failed: victim err=%v attacker err=%v", V.err, at.err)
-		} else {
-			cpt = &c01Capture{payload: at.peerPayload, static: at.peerStatic}
-		}
-		c01Cleanup([]*c01Party{V})
-		l.End(1).Close()
-	})
+	pan := c01Bubble(t, func() { cpt, err = c01CaptureIn(t, T, M, victimInitiator) })
 	if pan != "" {
 		return nil, fmt.Errorf("capture panicked: %s", pan)
 	}
@@ -197,6 +174,33 @@ func c01CaptureFrom(t *testing.T, T, M *c01wire.Key, victimInitiator bool) (*c01
 	}
 	c01CapCache[ck] = cpt
 	return cpt, nil
+}
+
+// c01CaptureIn is the capture handshake itself; it must be called inside a bubble.
+func c01CaptureIn(t testing.TB, T, M *c01wire.Key, victimInitiator bool) (cpt *c01Capture, err error) {
+	l := c01wire.NewLink(c01wire.FrameNoise)
+	cfg := c01Cfg{Entry: "T", Expect: "empty"}
+	if victimInitiator {
+		cfg.Expect = "match"
+	}
+	V := &c01Party{name: "victim", key: T, cfg: cfg, initiator: victimInitiator, end: l.End(0)}
+	V.secure = c01Build(t, T, cfg, victimInitiator, M.ID, M.ID)
+	st := c01NewStatic()
+	at := &c01Attacker{initiator: !victimInitiator, static: st,
+		payload: c01Payload(M.PubBytes, c01Sign(M, append([]byte(payloadSigPrefix), st.Public...)), nil)}
+	var wg sync.WaitGroup
+	wg.Add(1)
+	go func() { defer wg.Done(); at.run(l.End(1)) }()
+	c01HandshakePhase([]*c01Party{V})
+	wg.Wait()
+	if !V.completed || !at.finished || V.remotePeer != M.ID {
+		err = fmt.Errorf("capture handshake with the victim failed: victim err=%v attacker err=%v", V.err, at.err)
+	} else {
+		cpt = &c01Capture{payload: at.peerPayload, static: at.peerStatic}
+	}
+	c01Cleanup([]*c01Party{V})
+	l.End(1).Close()
+	return cpt, err
 }
 
 // c01AttackVariant builds the attacker's static key and payload. honest = the payload is a correct one for
@@ -383,12 +387,35 @@ func (a *c01Acct) c01AttackRun(t *testing.T, Hk, T, M *c01wire.Key, hInit bool, 
 	}
 	a.r.Executions++
 	a.nontrivial(fmt.Sprintf("%s|%s|%s|%s|%v|%s", Hk.Name, T.Name, M.Name, cfg, hInit, v.name))
+	viol := a.c01JudgeAttack("noise-attacker", desc, H, at, T, M, cfg.named(), v.name, v.honest)
+	res := "rejected"
+	if H.completed {
+		res = "completed"
+	}
+	exp := "names-nobody"
+	if cfg.named() {
+		exp = "names-victim"
+	}
+	a.r.Outcome(fmt.Sprintf("honest side %s; %s: %s (%s)", exp, v.name, res, c01ErrClass(H.err)))
+	if !viol && Hk.Typ == c01wire.KeyTypes[0] && T.Typ == c01wire.KeyTypes[1] && M.Typ == c01wire.KeyTypes[0] && hInit && cfg.Entry == "T" && (v.honest || len(v.name)%5 == 0) {
+		a.r.Sample(desc)
+	}
+}
+
+// c01JudgeAttack: the oracle for one honest side H against a harness-driven endpoint that holds exactly one
+// identity private key, the one of M (T = the victim it may try to pass for). named: H named a peer
+// (H.expected) and its configuration checks it. honest: the endpoint behaved as a correct foreign
+// implementation under its own identity (positive control).
+func (a *c01Acct) c01JudgeAttack(scn string, desc map[string]any, H *c01Party, at *c01Attacker, T, M *c01wire.Key, named bool, vname string, honest bool) (viol bool) {
 	desc["honest_result"] = c01Describe(H)
 	desc["attacker_err"] = fmt.Sprint(at.err)
 	bad := func(key, f string, args ...any) {
-		a.r.Violate("noise-attacker/"+key, fmt.Sprintf(f, args...), desc)
+		a.r.Violate(scn+"/"+key, fmt.Sprintf(f, args...), desc)
 	}
-	viol := false
+	v := struct {
+		name   string
+		honest bool
+	}{vname, honest}
 	if H.completed {
 		// (i)
 		if H.remoteKey == nil {
@@ -404,27 +431,17 @@ func (a *c01Acct) c01AttackRun(t *testing.T, Hk, T, M *c01wire.Key, hInit bool, 
 			viol = true
 		}
 		// (iii)
-		if cfg.named() && H.remotePeer != H.expected {
+		if named && H.remotePeer != H.expected {
 			bad("completed-although-expected-peer-differs", "honest side named %s but completed with RemotePeer()=%s [%s]", H.expected, H.remotePeer, v.name)
 			viol = true
 		}
 		// a payload that is not a correct one for the attacker's own identity was accepted (as the attacker):
 		// the identity is right, so the statement holds; recorded as an outcome class only.
-	} else if v.honest && !cfg.named() {
+	} else if v.honest && (!named || H.expected == M.ID) {
 		// positive control: a correct foreign endpoint must be accepted (as itself) by a side that names nobody
-		bad("honest-baseline-failed", "a correct foreign endpoint (driving flynn/noise directly) was rejected by a side that expects nobody in particular: %v (attacker side: %v)", H.err, at.err)
+		// (or names exactly that endpoint)
+		bad("honest-baseline-failed", "a correct foreign endpoint %s (driving flynn/noise directly) was rejected by a side that expects %q: %v (endpoint side: %v)", M.Name, H.expected, H.err, at.err)
 		viol = true
 	}
-	res := "rejected"
-	if H.completed {
-		res = "completed"
-	}
-	exp := "names-nobody"
-	if cfg.named() {
-		exp = "names-victim"
-	}
-	a.r.Outcome(fmt.Sprintf("honest side %s; %s: %s (%s)", exp, v.name, res, c01ErrClass(H.err)))
-	if !viol && Hk.Typ == c01wire.KeyTypes[0] && T.Typ == c01wire.KeyTypes[1] && M.Typ == c01wire.KeyTypes[0] && hInit && cfg.Entry == "T" && (v.honest || len(v.name)%5 == 0) {
-		a.r.Sample(desc)
-	}
+	return viol
 }
